@@ -8,7 +8,7 @@ from harness.core import llit, qlit, zlit
 IMPORTS = "From Coq Require Import ZArith QArith List.\nImport ListNotations.\nFrom Elex Require Import Base.Loss Model.Conformal Model.Compare.\n"
 
 RULE = ("get_estimates with features=[] and fixed_effects={} (nonparametric and gaussian, 1-3 vote-count estimands, all unit categories present, "
-        "plus hand-built reporting sets whose weighted median is NOT unique); the weighted median m of (counted - baseline)/baseline over the modelled "
+        "plus hand-built reporting sets whose weighted median is NOT unique, reporting sets whose weights span five orders of magnitude, and a second poll on a baseline frame the caller re-used and restated); the weighted median m of (counted - baseline)/baseline over the modelled "
         "reporting units (weights = baseline + 1) is computed inside Coq from the raw input; the captured median-regression coefficient must equal m and "
         "every nonreporting unit's prediction must equal rhe(max((1+m)*baseline, partial count)) (tie guard 1e-6); with a non-unique median the "
         "prediction must lie between the closed forms of the extreme weighted medians. distinct = run fingerprint; non-trivial = >= 5 reporting and "
@@ -45,6 +45,37 @@ def job_case(job):
         return case
     pi = rng.choice(["nonparametric", "gaussian"])
     kw = {}
+    if kind == "scales":
+        # weights spanning five orders of magnitude: two giants of nearly equal weight with different changes, many tiny units whose
+        # change lies beyond both. The weighted median is the first giant's change by a margin (delta) that is large against the tiny
+        # units' true total weight and small against what they would weigh after any clipping / flooring / low-precision rescaling
+        n = rng.randint(20, 60)
+        W = rng.randint(10**5, 5 * 10**6)
+        w = rng.randint(50, 500)
+        s_true, s_floor = n * (w + 1), n * (W // 1000)
+        delta = int((s_true * s_floor) ** 0.5) if s_floor > 4 * s_true else 2 * s_true
+        a, b, c = sorted(rng.sample([-0.2, -0.1, -0.05, 0.05, 0.1, 0.2, 0.3], 3))
+        if rng.random() < 0.5:
+            a, b, c = -a, -b, -c      # tiny units below both giants instead of above
+        base, feed = [], []
+
+        def add(i, turnout, change, pev=100):
+            uid = f"{100 + i}"
+            base.append({"postal_code": "AA", "geographic_unit_fips": uid, "county_fips": "001", "county_classification": "urban",
+                         "baseline_dem": turnout // 2, "baseline_gop": turnout - turnout // 2 - 1, "baseline_turnout": turnout, "feat_a": 0.0, "feat_b": 0.0})
+            res = int(round((turnout + 1) * (1 + change) * pev / 100.0))
+            feed.append({"postal_code": "AA", "geographic_unit_fips": uid, "results_dem": res // 2, "results_gop": res - res // 2, "results_turnout": res,
+                         "percent_expected_vote": pev})
+        add(0, W, a)
+        add(1, W - delta, b)
+        for i in range(n):
+            add(2 + i, w + rng.randint(0, 3), c + rng.uniform(0, 0.02) * (1 if c > 0 else -1))
+        for i in range(5):
+            add(2 + n + i, rng.choice([w, W // 10, W]), 0.0, pev=rng.choice([0, 30, 60]))
+        return {"office": "S", "unit_type": "county", "states": ["AA"], "baseline": base, "feed": feed,
+                "params": {"estimands": ["turnout"], "prediction_intervals": [0.7], "percent_reporting_threshold": 100, "pi_method": pi,
+                           "aggregates": ["postal_code", "unit"], "features": [], "fixed_effects": {}, "handle_unreporting": "drop",
+                           "model_parameters": {"fit_turnout_outlier_model": False, "fit_margin_outlier_model": False}}}
     if kind == "regularised":
         # a regularisation constant must not touch the intercept: the swing factor stays the weighted median
         kw["model_parameters"] = {"lambda_": rng.choice([0.5, 1.0, 10.0])}
@@ -55,8 +86,22 @@ def worker(job):
     from harness import run_impl
 
     case = job_case(job)
+    frame = None
+    if job[1] == "second_poll":
+        # a caller that keeps ONE baseline frame across polls: first poll on the frame, then some baselines are restated in that very
+        # frame (and in the case), then the poll that is checked
+        rng2 = random.Random(job[0] + 1)
+        frame, _ = run_impl.frames(case)
+        run_impl.run_case(case, base_frame=frame)
+        ids = [b["geographic_unit_fips"] for b in case["baseline"] if b["baseline_turnout"] > 0]
+        byid = {b["geographic_unit_fips"]: b for b in case["baseline"]}
+        for uid in rng2.sample(ids, min(8, len(ids))):
+            f = rng2.choice([0.6, 1.4, 1.7])
+            for c in ("baseline_dem", "baseline_gop", "baseline_turnout"):
+                byid[uid][c] = int(byid[uid][c] * f)
+                frame.loc[frame["geographic_unit_fips"] == uid, c] = byid[uid][c]
     with run_impl.SolverCapture() as cap:
-        h = aggfam.harvest(case)
+        h = aggfam.harvest(case, base_frame=frame)
     p = case["params"]
     out = {"job": list(job), "ok": h["ok"], "exc": h.get("exc"), "fp": aggfam.fingerprint(case, h), "exprs": [], "labels": [], "s": [], "nontrivial": False}
     if not h["ok"]:
@@ -122,7 +167,8 @@ def run(chk):
                         "through the captured coefficient (1e-9)"]
     rng = random.Random(chk.seed * 503 + 5)
     n = 24 if chk.tier == "quick" else 400
-    jobs = [(rng.randint(0, 2**31), "nonunique" if i % 6 == 5 else ("regularised" if i % 6 == 2 else "random")) for i in range(n)]
+    kinds = {5: "nonunique", 2: "regularised", 3: "scales", 4: "second_poll"}
+    jobs = [(rng.randint(0, 2**31), kinds.get(i % 6, "random")) for i in range(n)]
     outs = core.pmap(worker, jobs)
     exprs, idx = [], []
     n_ok = 0
